@@ -216,7 +216,7 @@ def k3_nostd(ctx):
 
 # ---------------------------------------------------------------- C18: adversarial renaming
 
-ADV_TYPES = ['C', 'S', 'T', 'Ok', 'Err', 'Some', 'None', 'Result', 'Option', 'Default', 'Debug', 'Self_', 'Box', 'Vec',
+ADV_TYPES = ['a', 'b', 'e', 'A_', 'AB', 'Ab', 'C', 'S', 'T', 'Ok', 'Err', 'Some', 'None', 'Result', 'Option', 'Default', 'Debug', 'Self_', 'Box', 'Vec',
              'PhantomData', 'GuardError', 'DynamicError', 'AroundStage', 'M', 'MEvent', 'DynamicM', 'AnyMState', 'Machine',
              'State', 'Event', 'Inner', 'Ctx2', 'A1', 'X']
 ADV_VALUES = ['x_y', 'step_2', 'go_2_x', 'a_1', 'zz_top', 'b', 'new', 'handle', 'name', 'into_dynamic', 'current_state', 'ok', 'err', 'default', 'clone', 'inner', 'ctx',
@@ -272,7 +272,12 @@ def rename_bases():
           ('states', [('leaf', 'A', None), ('leaf', 'B', 'D0')]),
           ('events', [('go', [('payload', 'P'), ('list', 'guards', ['g1']),
                               ('transition', [('from', ['A', 'B']), ('to', 'B')])])])]
-    return [b1, b2]
+    b3 = [('name', 'M'), ('initial', 'A'),
+          ('states', [('leaf', 'A', 'D0'), ('leaf', 'B', None), ('leaf', 'E', 'D1')]),
+          ('events', [('go', [('list', 'guards', ['g1']), ('transition', [('from', ['A']), ('to', 'B')])]),
+                      ('on', [('transition', [('from', ['B']), ('to', 'E')])]),
+                      ('back', [('transition', [('from', ['B', 'E']), ('to', 'A')])])])]
+    return [b1, b2, b3]
 
 
 def rename_variants(ctx):
@@ -284,7 +289,7 @@ def rename_variants(ctx):
             pool = ADV_TYPES if role in ('state', 'super', 'name') else ADV_VALUES
             if ctx.tier == 'quick':
                 rnd = random.Random('%d|%s|%d' % (ctx.seed, role, bi))
-                must = [x for x in pool if x in ('C', 'S', 'T', 'Ok', 'Err', 'Some', 'None', 'Result', 'Option', 'Default', 'new', 'handle', 'ctx', 'inner', 'into_dynamic',
+                must = [x for x in pool if x in ('a', 'b', 'e', 'AB', 'Ab', 'C', 'S', 'T', 'Ok', 'Err', 'Some', 'None', 'Result', 'Option', 'Default', 'new', 'handle', 'ctx', 'inner', 'into_dynamic',
                                                  'x_y', 'step_2', 'go_2_x', 'a_1', 'zz_top', 'b')]
                 rest = [x for x in pool if x not in must]
                 pool = must + rnd.sample(rest, min(6, len(rest)))
